@@ -64,6 +64,52 @@ func touchedBy(n *gen.Node) map[types.Hash256]bool {
 			t[types.Hash256(id)] = true
 		}
 	}
+	// everything else the block creates or consumes without a transaction
+	// naming it: miner payouts, foundation subsidy, siafund claims, the outputs
+	// of resolved / expired contracts - the difference of the ledgers around it
+	if n.Parent != nil && n.Parent.Valid() && n.Valid() {
+		a, b := n.Parent.L, n.L
+		for id := range b.SC {
+			if _, ok := a.SC[id]; !ok {
+				t[types.Hash256(id)] = true
+			}
+		}
+		for id := range a.SC {
+			if _, ok := b.SC[id]; !ok {
+				t[types.Hash256(id)] = true
+			}
+		}
+		for id := range b.SF {
+			if _, ok := a.SF[id]; !ok {
+				t[types.Hash256(id)] = true
+			}
+		}
+		for id := range a.SF {
+			if _, ok := b.SF[id]; !ok {
+				t[types.Hash256(id)] = true
+			}
+		}
+		for id := range b.V2FC {
+			if _, ok := a.V2FC[id]; !ok {
+				t[types.Hash256(id)] = true
+			}
+		}
+		for id := range a.V2FC {
+			if _, ok := b.V2FC[id]; !ok {
+				t[types.Hash256(id)] = true
+			}
+		}
+		for id := range b.FC {
+			if _, ok := a.FC[id]; !ok {
+				t[types.Hash256(id)] = true
+			}
+		}
+		for id := range a.FC {
+			if _, ok := b.FC[id]; !ok {
+				t[types.Hash256(id)] = true
+			}
+		}
+	}
 	return t
 }
 
@@ -317,7 +363,27 @@ func runC05(e *sim.Env) {
 				delete(tracked, id)
 				continue
 			}
-			e.Violationf("C05.retention", "dropped-without-cause", "transaction %v was accepted into the pool, is not confirmed on the best chain to %s, none of its inputs was touched by a block applied or reverted since it was last seen, it still validates on top of the tip and the reported pool, yet it is gone", id, tip.Describe())
+			what := "v1"
+			var rerr error
+			var origins []string
+			for _, in := range t.inputs {
+				o := originOf(tip, types.SiacoinOutputID(in))
+				el, ok := tip.L.SC[types.SiacoinOutputID(in)]
+				origins = append(origins, fmt.Sprintf("%v:%s(leaf %d, in ledger %v)", in, o, el.StateElement.LeafIndex, ok))
+			}
+			if t.v2 != nil {
+				for _, in := range t.v2.SiacoinInputs {
+					origins = append(origins, fmt.Sprintf("held proof leaf=%d len=%d", in.Parent.StateElement.LeafIndex, len(in.Parent.StateElement.MerkleProof)))
+				}
+			}
+			e.Logf("dropped txn inputs: %v; tip log since last seen: %v", origins, s.store.tipLog[t.lastSeen:])
+			if t.v1 != nil {
+				_, rerr = s.cm.AddPoolTransactions([]types.Transaction{*t.v1})
+			} else {
+				what = "v2"
+				_, rerr = s.cm.AddV2PoolTransactions(tip.Index(), []types.V2Transaction{*t.v2})
+			}
+			e.Violationf("C05.retention", "dropped-without-cause", "%s transaction %v was accepted into the pool, is not confirmed on the best chain to %s, none of its inputs was touched by a block applied or reverted since it was last seen (last seen at tip-log position %d of %d), it still validates on top of the tip and the reported pool, yet it is gone (submitting it again: err=%v)", what, id, tip.Describe(), t.lastSeen, len(s.store.tipLog), rerr)
 		}
 	}
 
